@@ -1,8 +1,10 @@
 package c17
 
 import (
+	"bytes"
 	"fmt"
 	"sort"
+	"unicode/utf8"
 
 	"Havoc/pkg/profile"
 	hcl "Havoc/pkg/profile/yaotl"
@@ -19,8 +21,12 @@ import (
 )
 
 // The evaluation context: a few variables of every kind and the usual functions.
-// It is rebuilt for every use because SplatExpr/ForExpr create children of it.
-func evalCtx() *hcl.EvalContext {
+// Evaluation only ever derives child contexts from it, so one instance serves all uses.
+var theCtx = buildEvalCtx()
+
+func evalCtx() *hcl.EvalContext { return theCtx }
+
+func buildEvalCtx() *hcl.EvalContext {
 	obj := cty.ObjectVal(map[string]cty.Value{
 		"n": cty.NumberIntVal(7),
 		"s": cty.StringVal("str"),
@@ -36,6 +42,8 @@ func evalCtx() *hcl.EvalContext {
 			"f":    cty.False,
 			"l":    cty.ListVal([]cty.Value{cty.NumberIntVal(1), cty.NumberIntVal(2), cty.NumberIntVal(3)}),
 			"e":    cty.ListValEmpty(cty.String),
+			"one":  cty.ListVal([]cty.Value{cty.NumberIntVal(1)}),
+			"m1":   cty.MapVal(map[string]cty.Value{"k": cty.StringVal("v")}),
 			"m":    cty.MapVal(map[string]cty.Value{"k1": cty.StringVal("v1"), "k2": cty.StringVal("v2")}),
 			"o":    obj,
 			"tup":  cty.TupleVal([]cty.Value{cty.NumberIntVal(1), cty.StringVal("two"), obj}),
@@ -86,6 +94,10 @@ func (k *checker) guard(phase string, f func()) bool {
 // useExpr evaluates an expression that parsed without error diagnostics.
 func (k *checker) useExpr(e hcl.Expression, flavour string) {
 	k.st.evaluated++
+	if flavour == "JSON" && k.jsonApprox {
+		k.noDiagRanges = true
+		defer func() { k.noDiagRanges = false }()
+	}
 	k.guard("Value(ctx) of an error-free "+flavour+" expression", func() {
 		_, d := e.Value(evalCtx())
 		k.checkDiags(d, "eval")
@@ -371,6 +383,11 @@ func (k *checker) evalBody(b *hclsyntax.Body, depth int) {
 // (hcl.Body): the properties of each object as attributes, then — through a schema that
 // declares every property name as a block type — as nested bodies, recursively.
 func (k *checker) walkJSON(f *hcl.File) {
+	// Templates inside JSON strings are parsed at evaluation time on the *decoded* string with
+	// a start position computed from the raw one; json/structure.go says "this won't produce
+	// exactly the right result, since the parser can't see any escapes we removed". Their
+	// diagnostics' positions are judged only when raw and decoded text coincide.
+	k.jsonApprox = !utf8.Valid(k.src) || bytes.IndexByte(k.src, '\\') >= 0
 	suffix := ""
 	if !k.st.errFree {
 		suffix = " (after error diagnostics)"
@@ -408,7 +425,7 @@ func (k *checker) walkJSONBody(b hcl.Body, parent *hcl.Range, depth int) {
 					fmt.Sprintf("json.Parse: value %s of property %q is not inside the property's range %s", rstr(er), n, rstr(a.Range)),
 					map[string]any{"child": rstr(er), "parent": rstr(a.Range)})
 			}
-			if k.st.errFree {
+			if k.st.errFree && depth < 3 {
 				k.useExpr(a.Expr, "JSON")
 			}
 		}
@@ -441,6 +458,10 @@ func (k *checker) walkJSONBody(b hcl.Body, parent *hcl.Range, depth int) {
 	}
 	if k.st.errFree && depth == 0 {
 		k.st.decoded++
+		if k.jsonApprox {
+			k.noDiagRanges = true
+			defer func() { k.noDiagRanges = false }()
+		}
 		// labelled form and the fixed targets
 		c, d := b.Content(fixedSchema)
 		k.checkDiags(d, "decode")
